@@ -1,7 +1,5 @@
 
 (* the property itself, decided on what the implementation did *)
-Definition sync_case := (bool * Z * list (list dblock) * list (Z * list reply) * list Z * list bool *
-                         list (list dblock) * list (Z * list reply) * list Z)%type.
 Fixpoint trace_ok_b (reqn prev : Z) (tr : list (Z * list reply)) : bool :=
   match tr with
   | [] => true
